@@ -274,7 +274,7 @@ def r1(db, rep):
             okparent = False
             for v in facts.fn_nodes(hf):
                 if v["k"] == "VarDecl" and v.get("name") == recv0.strip("() ") and v.get("c"):
-                    okparent = "parent" in facts.expr_str(v["c"][0])
+                    okparent = "parent" in facts.expr_str(facts.inline_locals(hf, v["c"][0]))
                     if bind is not None:
                         okparent = any(x["k"] == "DeclRefExpr" and x.get("var") in bind and "parent" in facts.expr_str(bind[x["var"]])
                                        for x in facts.walk(v["c"][0]))
@@ -284,7 +284,7 @@ def r1(db, rep):
             if hf is not f:
                 # the helper stores it into a reference parameter: from the call on, the argument variable holds it
                 q_ = p
-                while q_ is not None and q_["k"] in ("ImplicitCastExpr", "ParenExpr", "CStyleCastExpr", "CXXStaticCastExpr"):
+                while q_ is not None and q_["k"] in ("ImplicitCastExpr", "ParenExpr", "CStyleCastExpr", "CXXStaticCastExpr", "ExprWithCleanups", "MaterializeTemporaryExpr", "CXXBindTemporaryExpr"):
                     q_ = hpar.get(q_["id"])
                 acc_h = None
                 if q_ is not None and q_["k"] == "BinaryOperator" and q_.get("op") == "=" and strip(q_["c"][0])["k"] == "DeclRefExpr":
@@ -300,7 +300,7 @@ def r1(db, rep):
             if not okadd:
                 # the same sum built in two statements: acc = pseudo(...); ... acc += sum_range(...) on every path onwards
                 q_ = p
-                while q_ is not None and q_["k"] in ("ImplicitCastExpr", "ParenExpr", "CStyleCastExpr", "CXXStaticCastExpr") or \
+                while q_ is not None and q_["k"] in ("ImplicitCastExpr", "ParenExpr", "CStyleCastExpr", "CXXStaticCastExpr", "ExprWithCleanups", "MaterializeTemporaryExpr", "CXXBindTemporaryExpr") or \
                         (q_ is not None and q_["k"] == "BinaryOperator" and q_.get("op") == "+"):
                     q_ = par.get(q_["id"])
                 acc = None
@@ -342,8 +342,8 @@ def accumulated(f, g, n, acc, q_, stores, patches):
         for y in facts.walk(val_):
             if y["k"] == "BinaryOperator" and y.get("op") == "+" and \
                     any(z["k"] == "DeclRefExpr" and z.get("var") == acc for z in facts.walk(y)) and \
-                    any(z["k"] == "CallExpr" and z.get("cname") in SUM_FNS for z in facts.walk(y)):
-                adds.append(x)
+                    any(z["k"] == "CallExpr" and z.get("cname") in SUM_FNS for z in facts.walk(facts.inline_locals(f, y))):
+                adds.append(x)      # (the layer's sum may sit in a named local of its own)
                 break
     uses = [g.pos(x) for x, _ in stores] + [g.pos(x) for x in patches]
     return bool(adds) and not resets and bool(uses) and g.first_hit(g.pos(n), uses, [g.pos(x) for x in adds]) is None
